@@ -292,9 +292,9 @@ Proof.
   set (g := fun sg : Q * Q * str => (frame_iv fs (fst sg), snd sg)).
   rewrite !map_app. cbn [map]. rewrite !map_app. cbn [map]. unfold g at 2 3 5. cbn [fst snd]. unfold frame_iv. cbn [fst snd].
   apply meet_frames_dup.
-  - apply frame_of_nonneg; assumption.
-  - apply frame_of_mono; [exact hf|lra].
-  - apply frame_of_mono; [exact hf|lra].
+  - apply frame_of_nonneg; cbn [fst snd]; assumption.
+  - apply frame_of_mono; [exact hf|cbn [fst snd]; lra].
+  - apply frame_of_mono; [exact hf|cbn [fst snd]; lra].
 Qed.
 
 (* L-measure: cutting a segment of any level of the reference or of the estimate in two pieces with the same label
@@ -306,18 +306,19 @@ Proof.
   split; intros hc; unfold lmeasure; destruct (qleb fs 0) eqn:E; try reflexivity;
     assert (hf : 0 < fs) by (unfold qleb in E; qb; exact E).
   - rewrite (meet_split_invariant k i m ref fs hf hc).
-    destruct (split_level_decomp k i m ref hc) as (Lp & p & a & b & l & s & Ls & e1 & e2 & h0 & h1 & h2).
-    rewrite e2. rewrite e1 at 2. rewrite lh_intervals_dup2, lh_intervals_dup1, validate_hier_dup by assumption. reflexivity.
+    destruct (split_level_decomp k i m ref hc) as (Lp & p & a & b & l & s & Ls & -> & e2 & h0 & h1 & h2).
+    rewrite e2. rewrite lh_intervals_dup2, lh_intervals_dup1, validate_hier_dup by assumption. reflexivity.
   - rewrite (meet_split_invariant k i m est fs hf hc).
-    destruct (split_level_decomp k i m est hc) as (Lp & p & a & b & l & s & Ls & e1 & e2 & h0 & h1 & h2).
-    rewrite e2. rewrite e1 at 2. rewrite lh_intervals_dup2, lh_intervals_dup1, validate_hier_dup by assumption. reflexivity.
+    destruct (split_level_decomp k i m est hc) as (Lp & p & a & b & l & s & Ls & -> & e2 & h0 & h1 & h2).
+    rewrite e2. rewrite lh_intervals_dup2, lh_intervals_dup1, validate_hier_dup by assumption. reflexivity.
 Qed.
 
 (* the hypotheses are satisfiable *)
 Example lmeasure_split_example :
-  let ref := [[((0, 4), [97]); ((4, 8), [98])]; [((0, 2), [97]); ((2, 4), [99]); ((4, 8), [97])]]%nat in
+  let la : str := [97%nat] in let lb : str := [98%nat] in let lc : str := [99%nat] in
+  let ref : lhier := [[((0, 4), la); ((4, 8), lb)]; [((0, 2), la); ((2, 4), lc); ((4, 8), la)]] in
   cuttable_h 1 2 6 ref /\
-  split_level 1 2 6 ref = [[((0, 4), [97]); ((4, 8), [98])]; [((0, 2), [97]); ((2, 4), [99]); ((4, 6), [97]); ((6, 8), [97])]]%nat.
+  split_level 1 2 6 ref = [[((0, 4), la); ((4, 8), lb)]; [((0, 2), la); ((2, 4), lc); ((4, 6), la); ((6, 8), la)]].
 Proof.
   cbv zeta. split; [|reflexivity]. eexists; eexists. split; [reflexivity|]. split; [reflexivity|]. cbn. repeat split; lra.
 Qed.
